@@ -83,7 +83,7 @@ func runC14Cfg(env *Env, seed uint64, spec orcSpec, mutateCfg func(*ChainCfg), b
 		tr.endObs = append(tr.endObs, o.fullObs())
 		// hypothesis of C14_partial at this point: no feeder's window is in a state the replay log
 		// cannot reproduce (closed inside its window, or a validator with two accepted messages)
-		safe := len(upd) == 0
+		safe := true
 		h := uint64(o.c.Header.Height)
 		for fi := range spec.Feeders {
 			if base := spec.openBase(fi, h+1); base > 0 || spec.openBase(fi, h) > 0 {
@@ -101,6 +101,11 @@ func runC14Cfg(env *Env, seed uint64, spec orcSpec, mutateCfg func(*ChainCfg), b
 					}
 				}
 			}
+		}
+		if len(upd) > 0 {
+			// right after a validator-set change the restarted node replays the forced seal itself (the
+			// `from >= to` branch, F-14c repair): every round alive is closed on both nodes, whatever was in it
+			safe = true
 		}
 		tr.safeAt = append(tr.safeAt, safe)
 		if !d.commitBegin(blk.step) {
@@ -322,6 +327,35 @@ func domOracleC14(env *Env) error {
 				return ""
 			})
 	}
+	if env.Int("valset", 0) == 1 {
+		// restart right after a PURE REMOVAL: operator 2 opts out in block 2, the minute epoch ends with
+		// BeginBlock(10), x/dogfood returns power 0 for it at EndBlock(10) - inside the window of the round
+		// based at 9, which holds validator 0's report of block 10 and is force-sealed. The node restarts in
+		// block 11; validators 1 and 0 then submit for the sealed round (refused on a node that kept running).
+		// ValidatorUpdateBlock must have been persisted for the removal: the restarted node replays the seal.
+		c14DirectedCfg(env, "restart-after-validator-removal", ":restart-after-validator-removal", base, 14, 9,
+			func(c *ChainCfg) { c.EpochID = epochstypes.MinuteEpochID },
+			func(d *orcDriver, h uint64) c14Block {
+				blk := c14Block{step: 2 * time.Second}
+				switch h {
+				case 2:
+					blk.pre = func(o *orc) { o.vsDo(vsAction{kind: "optout", op: 2}) }
+				case 9:
+					blk.step = 70 * time.Second
+				case 10:
+					blk.txs = []orcTx{mkB(d, 0, 9, 1, "9", "2")}
+				case 11:
+					blk.txs = []orcTx{mkB(d, 1, 9, 1, "9", "2"), mkB(d, 0, 9, 2, "10", "2")}
+				}
+				return blk
+			},
+			func(a *c14Trace) string {
+				if len(a.nUpd) < 10 || a.nUpd[9] == 0 {
+					return "no-validator-update-at-block-10"
+				}
+				return ""
+			})
+	}
 	if env.Int("f14d", 0) == 1 {
 		// F-14d: a chain younger than MaxNonce. `block - uint64(common.MaxNonce)` in cacheMsgs.commit wraps
 		// for block < MaxNonce, `b > huge` is false for every index entry, and the commit of block 3 removes
@@ -380,6 +414,13 @@ func domOracleC14(env *Env) error {
 		var blocks []c14Block
 		nb := 14 + rng.Intn(maxBlocks)
 		genRng := NewRNG(seed + 77)
+		// every second history (valset=1): minute epochs and validator-set changes through x/dogfood -
+		// power changes, pure removals (opt-out), re-additions - with restarts right after each of them
+		minute := env.Int("valset", 0) == 1 && hi%2 == 0
+		var mutCfg func(*ChainCfg)
+		if minute {
+			mutCfg = func(c *ChainCfg) { c.EpochID = epochstypes.MinuteEpochID }
+		}
 		gen := func(d *orcDriver) c14Block {
 			d.rng = genRng
 			// reuse the C12 generator but capture the txs instead of sending them directly
@@ -413,17 +454,46 @@ func domOracleC14(env *Env) error {
 					txs = append(txs, t)
 				}
 			}
-			return c14Block{txs: txs, open: open, step: time.Duration(1+genRng.Intn(4)) * time.Second}
+			blk := c14Block{txs: txs, open: open, step: time.Duration(1+genRng.Intn(4)) * time.Second}
+			if minute {
+				if genRng.Chance(1, 5) {
+					if act, ok := d.vsPick(); ok {
+						blk.pre = func(o *orc) { o.vsDo(act) }
+					}
+				}
+				if genRng.Chance(1, 5) {
+					blk.step = time.Duration(56+genRng.Intn(10)) * time.Second
+				}
+			}
+			return blk
 		}
-		a, _ := runC14(env, seed, spec, &blocks, nb, gen, -1)
+		a, _ := runC14Cfg(env, seed, spec, mutCfg, &blocks, nb, gen, -1)
 		env.Report.Histories++
 		restarts := 0
+		// restart points: every `every`-th height, and the block right after each validator-set change
+		var points []int
+		seenPt := map[int]bool{}
 		for k := 1 + int(seed%uint64(every)); k < nb-2; k += every {
+			points = append(points, k)
+			seenPt[k] = true
+		}
+		nChange := 0
+		for k, nu := range a.nUpd {
+			if nu > 0 && k >= 1 && k < nb-2 && !seenPt[k] && nChange < 4 {
+				points = append(points, k)
+				seenPt[k] = true
+				nChange++
+			}
+		}
+		for _, k := range points {
+			if k < len(a.nUpd) && a.nUpd[k] > 0 {
+				env.Outcome("restart-right-after-valset-change")
+			}
 			if k >= len(a.safeAt) || !a.safeAt[k] {
 				env.Outcome("restart-point-outside-partial-hypothesis")
 				continue
 			}
-			b, r := runC14(env, seed, spec, &blocks, nb, nil, k)
+			b, r := runC14Cfg(env, seed, spec, mutCfg, &blocks, nb, nil, k)
 			env.Report.Histories++
 			restarts++
 			hist := []string{"orc.reset", fmt.Sprintf("# history %d of seed %d, restart after block %d (replay: exoharness oracle_restart seed=%d)", hi, env.Report.Seed, k+1, env.Report.Seed)}
